@@ -37,7 +37,10 @@ fn run_twice(line: &str) -> String {
     format!("{} steps={} rerun={}", v1, s1, same)
 }
 
-pub fn run(line: &str) -> String {
+// every case runs in a worker process under a watchdog: `hang` / `crash:<rc>` instead of a verdict
+pub fn run(line: &str) -> String { tc_common::guarded(line, run_direct) }
+
+fn run_direct(line: &str) -> String {
     let w: Vec<&str> = line.split_whitespace().collect();
     if w.len() == 3 && (w[0] == "chain" || w[0] == "bigchain") {
         let n: usize = w[1].parse().unwrap();
